@@ -537,6 +537,10 @@ pub struct FloodCase {
     /// Control-frame flood instead of a DATA flood: this many CLOSE frames (no DATA at all), cycling over the streams.
     #[serde(default)]
     control: u16,
+    /// After the flood the application reads these many bytes, one read at a time, and stalls again after each
+    /// (one stream only, so that a read can never be blocked behind another stream's unread frames).
+    #[serde(default)]
+    partial: Vec<u16>,
 }
 
 pub fn gen_flood(ch: &mut Choices) -> FloodCase {
@@ -566,7 +570,25 @@ pub fn gen_flood(ch: &mut Choices) -> FloodCase {
     if control > 0 {
         frames.clear();
     }
-    FloodCase { cfg, streams: 1 + ch.below(4) as u8, app_accepts: ch.bool(), frames, drain: ch.chance(2, 3), control }
+    let mut case = FloodCase { cfg, streams: 1 + ch.below(4) as u8, app_accepts: ch.bool(), frames, drain: ch.chance(2, 3), control, partial: vec![] };
+    if control == 0 && ch.chance(1, 3) {
+        // the application reads in pieces that do not line up with frame boundaries and stalls in between
+        case.streams = 1;
+        case.app_accepts = true;
+        let rfs = case.cfg.read_frame_size as usize;
+        for _ in 0..ch.range(1, 12) {
+            let k = match ch.below(6) {
+                0 => 1,
+                1 => rfs.saturating_sub(1).max(1),
+                2 => rfs + 1,
+                3 => rfs / 2 + 1,
+                4 => 3 * rfs + 1,
+                _ => ch.range(1, 4 * rfs as u64) as usize,
+            };
+            case.partial.push(k.min(u16::MAX as usize) as u16);
+        }
+    }
+    case
 }
 
 const OPEN: u16 = 0;
@@ -710,6 +732,72 @@ pub fn check_flood(case: &FloodCase, st: &mut Stats) -> Result<(), String> {
                 case.cfg.read_buffer_size, case.cfg.read_frame_count
             ));
         }
+        // partial reads: the application consumes a few bytes at a time and stalls again. Whatever it has not consumed is
+        // still held by the multiplexer, so the payload pulled from the transport may never exceed consumed + buffer size
+        let mut consumed: u64 = 0;
+        if !case.partial.is_empty() && case.app_accepts && nstreams == 1 {
+            let mut s = match held.lock().unwrap().pop() {
+                Some(s) => s,
+                None => return Err("the opened stream was not handed to the application".into()),
+            };
+            st.class("partial_reads_between_stalls");
+            let payload_of = |pulled: u64| -> (u64, u64) {
+                // (payload bytes, frames started) among the first `pulled` flood bytes (all frames are on stream 0)
+                let (mut left, mut payload, mut started) = (pulled, 0u64, 0u64);
+                for (_, len) in &case.frames {
+                    if left == 0 {
+                        break;
+                    }
+                    started += 1;
+                    let whole = 4 + *len as u64;
+                    if left >= whole {
+                        payload += *len as u64;
+                        left -= whole;
+                    } else {
+                        payload += left.saturating_sub(4);
+                        left = 0;
+                    }
+                }
+                (payload, started)
+            };
+            let mut got: Vec<u8> = vec![];
+            let mut worst: u64 = 0;
+            for k in &case.partial {
+                let avail = total - 4 * case.frames.len() as u64 - consumed;
+                let k = (*k as u64).min(avail) as usize;
+                if k == 0 {
+                    break;
+                }
+                let mut fut = Box::pin(s.read_exact(&ctx, k));
+                let r = det::until_quiescent(&mut fut).await;
+                drop(fut);
+                match r {
+                    Some(Ok(d)) if d.len() == k => got.extend(d),
+                    Some(Ok(d)) => return Err(format!("a read of {k} bytes returned {} bytes although the peer has sent more and has not closed the stream", d.len())),
+                    Some(Err(e)) => return Err(format!("a read of {k} bytes failed during the flood: {e:#}")),
+                    None => return Err(format!("a read of {k} bytes did not complete although the peer had sent {avail} more bytes on this stream (the only one)")),
+                }
+                consumed += k as u64;
+                det::barrier().await;
+                let (payload, _) = payload_of(to_local.stats().1 - base);
+                let unconsumed = payload - consumed;
+                worst = worst.max(unconsumed);
+                if unconsumed > case.cfg.read_buffer_size {
+                    return Err(format!(
+                        "after the application had consumed {consumed} bytes in unaligned pieces the multiplexer had pulled {payload} payload bytes from the transport: {unconsumed} bytes received but not consumed, read_buffer_size is {}",
+                        case.cfg.read_buffer_size
+                    ));
+                }
+            }
+            st.max("max_unconsumed_after_partial_reads_permille_of_buffer", worst * 1000 / case.cfg.read_buffer_size);
+            if got != prg_bytes(1000, 0, got.len()) {
+                return Err("the bytes obtained by partial reads are not the bytes the peer sent".into());
+            }
+            if consumed > 0 && total >= 4 * case.cfg.read_buffer_size {
+                st.nontrivial(common::fingerprint(&(case, "partial")));
+            }
+            held.lock().unwrap().push(s);
+        }
         // drain: once the application reads, everything must arrive in order
         if case.drain && case.app_accepts {
             let streams = std::mem::take(&mut *held.lock().unwrap());
@@ -743,10 +831,10 @@ pub fn check_flood(case: &FloodCase, st: &mut Stats) -> Result<(), String> {
                     }
                     let id = (0..4u16).find(|id| {
                         let t = sent.get(id).copied().unwrap_or(0);
-                        t == got.len() as u64 && got == prg_bytes(1000 + *id as u64, 0, t as usize)
+                        t >= consumed && t - consumed == got.len() as u64 && got == prg_bytes(1000 + *id as u64, consumed, (t - consumed) as usize)
                     });
                     results.lock().unwrap().push(match id {
-                        Some(id) if !got.is_empty() => Ok(id),
+                        Some(id) if !got.is_empty() || consumed > 0 => Ok(id),
                         Some(_) => Ok(u16::MAX),
                         None => Err(format!("a flooded stream delivered {} bytes that are not exactly the bytes sent on one stream", got.len())),
                     });
